@@ -681,6 +681,36 @@ cell("rgb_to_quat|channels", "shape_pair", b_channels(3), _mk_rgb("rgb_to_quat")
 cell("quat_to_rgb|channels", "shape_pair", b_channels(4), _mk_rgb("quat_to_rgb"), lambda p: (p["kind"],))
 
 
+def b_few_channels(src):
+    """An image with fewer than the four quaternion components (typically the RGB image handed over without
+    rgb_to_quat).  More than four components are not claimed: the library answers them."""
+    H, W = src.i(2, 4), src.i(2, 4)
+    c = src.pick([3, 3, 1, 2])
+    return {"X": np.abs(src.r(H, W, c)) / 4.0, "H": H, "W": W, "kind": f"channels={c}"}
+
+
+_PSF3 = np.array([[0.0, 0.125, 0.0], [0.125, 0.5, 0.125], [0.0, 0.125, 0.0]])
+
+
+def _mk_few(which):
+    def make(p):
+        X = np.array(p["X"])
+        psf = _PSF3.copy()
+        if which == "apply_blur_fft":
+            return [X, psf], (lambda: L.qslst.apply_blur_fft(X, psf))
+        if which == "qslst_restore_fft":
+            return [X, psf], (lambda: L.qslst.qslst_restore_fft(X, psf, 0.1))
+        if which == "qslst_restore_matrix":
+            Am = np.eye(p["H"] * p["W"]) * 0.5
+            return [X, Am], (lambda: L.qslst.qslst_restore_matrix(X, Am, 0.1))
+        return [X], (lambda: L.qslst.split_quat_channels(X))
+    return make
+
+
+for _w in ("apply_blur_fft", "qslst_restore_fft", "qslst_restore_matrix", "split_quat_channels"):
+    cell(f"{_w}|channels<4", "shape_pair", b_few_channels, _mk_few(_w), lambda p: (p["kind"],))
+
+
 def _dd(src, n):
     """Strictly diagonally dominant n x n (non-singular, well conditioned)."""
     A = src.q(n, n)
